@@ -202,6 +202,50 @@ def history_case(case, common, out):
             viol(out, "C17.delayed:continued-query-fails", sig, f"{type(ex).__name__}: {str(ex)[:160]}", {"kind": "none"})
 
 
+def array_import_case(case, common, out):
+    """One dask array re-imported twice with two different indexes: each import keeps ITS index (both alive)."""
+    import numpy as np
+    import pandas as pd
+
+    import dask_expr as dx
+    from dask_expr import from_dask_array
+
+    npart, known = case
+    pdf = pd.DataFrame({"x": np.arange(12), "y": np.arange(12) * 1.5}, index=pd.Index(np.arange(12), name="i"))
+    sig = f"from_dask_array twice|np={npart}|known={known}"
+    with warnings.catch_warnings():
+        warnings.simplefilter("ignore")
+        base = dx.from_pandas(pdf, npartitions=npart)
+        pdf2 = pdf.copy()
+        pdf2.index = pdf2.index + 1000
+        other = dx.from_pandas(pdf2, npartitions=npart)
+        if not known:
+            base, other = base.clear_divisions(), other.clear_divisions()
+        try:
+            arr = base.to_dask_array(lengths=True) if known else base.to_dask_array()
+            a = from_dask_array(arr, columns=list(pdf.columns), index=base.index)
+            b = from_dask_array(arr, columns=list(pdf.columns), index=other.index)
+            bump(out, "C17.array:two-imports-keep-their-own-index", sig, rule="to_dask_array, then from_dask_array twice with two different index collections while both imports are alive")
+            ga, gb = a.compute(), b.compute()
+            if ga.index.tolist() != pdf.index.tolist() or gb.index.tolist() != pdf2.index.tolist():
+                viol(out, "C17.array:import-took-the-other-import's-index", sig, f"first import index {ga.index.tolist()[:3]}.., second import index {gb.index.tolist()[:3]}.. (expected {pdf2.index.tolist()[:3]}..)", {"kind": "call", "module": "vf.props.C17", "func": "replay_array_import", "args": {"case": list(case)}})
+            elif ga.x.tolist() != pdf.x.tolist() or gb.x.tolist() != pdf.x.tolist():
+                viol(out, "C17.array:values-differ", sig, f"{ga.x.tolist()[:4]} / {gb.x.tolist()[:4]}", {"kind": "none"})
+        except Exception as ex:
+            out["notes"][f"array import not evaluated: {sig}"] = f"{type(ex).__name__}: {str(ex)[:100]}"
+
+
+def replay_array_import(case):
+    from vf.rt.pool import _init
+
+    _init()
+    out = {"counts": {}, "violations": [], "samples": [], "errors": [], "notes": {}}
+    array_import_case(tuple(case), {}, out)
+    for v in out["violations"]:
+        print(v["contract"], "|", v["signature"], "|", v["detail"][:300])
+    return bool(out["violations"])
+
+
 def replay_history(case):
     from vf.rt.pool import _init
 
@@ -220,6 +264,7 @@ def run(run):
     cases = [(h, t, n, k) for h in heads for t in tails for (n, k) in layouts]
     run_cases(run, "vf.props.C17", "check_case", cases, {}, chunk=4)
     run_cases(run, "vf.props.C17", "history_case", [(n, p) for n in (2, 4) for p in (None, "stage")], {}, chunk=1)
+    run_cases(run, "vf.props.C17", "array_import_case", [(3, False), (3, True), (1, False)], {}, chunk=1)
     from vf.contracts.registry import run_property_specs
 
     run_property_specs(run, "C17")
